@@ -163,11 +163,48 @@ def dumpstruct_type_data(res, dumpstruct):
                     res.violations.append(Violation("dumpstruct:fields", f"dumpstruct:fields|{color}", case, f"{text!r} data={data.hex()}: listed fields {listed}"))
 
 
+def dumpstruct_histories(res, dumpstruct):
+    """The listing follows the structure as it is NOW: dump, extend the type (add_field / start_update), parse and dump again."""
+    from dissect.cstruct import cstruct
+
+    data = bytes(range(1, 12))
+    for compiled in (False, True):
+        for form in ("instance", "type+data"):
+            for batch in (False, True):
+                cs = cstruct()
+                cs.load("struct S { uint8 a; uint16 b; };", compiled=compiled)
+                S = cs.S
+                res.evaluations += 1
+                res.states += 1
+                res.transitions += 4
+                res.nontrivial += 1
+                case = {"dumpstruct": "history", "compiled": compiled, "form": form, "batch": batch}
+                try:
+                    first = ANSI.sub("", dumpstruct(S(data), output="string") if form == "instance" else dumpstruct(S, data[:3], output="string"))
+                    if batch:
+                        with S.start_update():
+                            S.add_field("c", cs.uint8)
+                            S.add_field("d", cs.uint32)
+                    else:
+                        S.add_field("c", cs.uint8)
+                        S.add_field("d", cs.uint32)
+                    out = ANSI.sub("", dumpstruct(S(data), output="string") if form == "instance" else dumpstruct(S, data[:8], output="string"))
+                except Exception as e:  # noqa: BLE001
+                    res.violations.append(Violation("dumpstruct:raises", "dumpstruct:history-raises", case, f"dump, add_field(c, d), dump again: {impl.exc_sig(e)} {e!r}"))
+                    continue
+                listed = [ln[2:].split(":")[0] for ln in out.split("\n") if ln.startswith("- ")]
+                if listed != ["a", "b", "c", "d"] or "08" not in out.split("\n\n")[0]:
+                    res.violations.append(Violation("dumpstruct:fields", "dumpstruct:history", case, f"after dumping S {{a, b}} and adding c, d the dump of the extended structure lists {listed}"))
+                if [ln[2:].split(":")[0] for ln in first.split("\n") if ln.startswith("- ")] != ["a", "b"]:
+                    res.violations.append(Violation("dumpstruct:fields", "dumpstruct:history", case, f"first dump lists {first!r}"))
+
+
 def dumpstruct_text_job(tier) -> JobResult:
     from dissect.cstruct import cstruct, dumpstruct
 
     res = JobResult()
     dumpstruct_type_data(res, dumpstruct)
+    dumpstruct_histories(res, dumpstruct)
     for text in STRUCT_TEXTS:
         for align in (False, True):
             for compiled in (False, True):
@@ -260,7 +297,9 @@ def pack_job(tier) -> JobResult:
     from dissect.cstruct import p8, p16, p32, p64, pack, swap, swap16, swap32, swap64, u8, u16, u32, u64, unpack
 
     res = JobResult()
-    spell = {"little": "little", "big": "big", "<": "little", ">": "big", "!": "big", "network": "big"}
+    import sys as _sys
+
+    spell = {"little": "little", "big": "big", "<": "little", ">": "big", "!": "big", "network": "big", "@": _sys.byteorder, "=": _sys.byteorder}
     fixed = {8: (p8, u8), 16: (p16, u16), 32: (p32, u32), 64: (p64, u64)}
     swaps = {16: swap16, 32: swap32, 64: swap64}
     for size in (8, 16, 24, 32, 48, 64, 128):
@@ -314,7 +353,7 @@ def pack_job(tier) -> JobResult:
             exp = v.to_bytes((v.bit_length() + 7) // 8, border)
             if got != exp or unpack(got, None, e) != v:
                 res.violations.append(Violation("pack:size-none", "pack:size-none", {"pack": None, "value": str(v), "endian": e}, f"pack({v}, None, {e!r}) = {got.hex()}, expected {exp.hex()}; unpack gives {unpack(got, None, e)}"))
-    res.samples.append({"pack": "widths 8..128 x boundary ints (all of them for 8/16 bit) x 6 endian spellings vs int.to_bytes/from_bytes"})
+    res.samples.append({"pack": "widths 8..128 x boundary ints (all of them for 8/16 bit) x 8 endian spellings vs int.to_bytes/from_bytes"})
     return res
 
 
